@@ -68,6 +68,9 @@ pub struct GenCfg {
     /// sometimes leave out the choice that keeps a re-entrant section alive: the story then legitimately runs out
     /// of content on some paths (an error the engine must report)
     pub allow_runout: bool,
+    /// many calls of (multi-line) functions in the middle of expressions, after an operand: the story can then
+    /// pause inside the function while the caller's operands wait on the evaluation stack
+    pub call_mid_expression_boost: bool,
 }
 
 impl GenCfg {
@@ -116,6 +119,7 @@ impl GenCfg {
             choice_tags: false,
             layout_variants: false,
             allow_runout: false,
+            call_mid_expression_boost: false,
         }
     }
     /// everything, including the nondeterministic-looking features (for lockstep oracles)
@@ -729,6 +733,20 @@ impl<'a> Builder<'a> {
                 v.push(Stmt::Thread(t));
                 continue;
             }
+            if self.cfg.call_mid_expression_boost && self.cfg.functions && !self.in_function && self.rng.chance(1, 5)
+                && let Some(call) = self.fn_call(Ty::Int, 1)
+            {
+                let left = self.int_atom();
+                let e = Expr::Bin(Box::new(left), *self.rng.pick(&[BinOp::Add, BinOp::Mul, BinOp::Sub]), Box::new(call));
+                if self.rng.chance(1, 2) {
+                    let g = self.rng.pick(&self.meta.int_globals.clone()).clone();
+                    v.push(Stmt::Assign { temp_decl: false, name: g, op: AssignOp::Set, expr: e });
+                } else {
+                    let t = self.text();
+                    v.push(Stmt::Line(vec![Inline::Text(format!("{t} ")), Inline::Expr(e)], None));
+                }
+                continue;
+            }
             match self.rng.below(16) {
                 0..=4 => v.push(self.content_line()),
                 5 | 6 => {
@@ -1218,7 +1236,7 @@ impl<'a> Builder<'a> {
     fn function_body(&mut self, plan: &KnotPlan) -> Vec<Stmt> {
         self.cur_scope = plan.name.clone();
         let mut v = Vec::new();
-        let n = if self.cfg.multiline_functions { self.rng.below(3) } else { self.rng.below(2) };
+        let n = if self.cfg.call_mid_expression_boost { 2 + self.rng.below(2) } else if self.cfg.multiline_functions { self.rng.below(3) } else { self.rng.below(2) };
         let my_index: usize = plan.name.trim_start_matches("fn").parse().unwrap_or(0);
         let later: Vec<(String, Vec<Ty>, Ty)> = self
             .meta
